@@ -41,6 +41,29 @@ def run(chk, replay=None):
                 chk.violate('second pass changes the first-pass output', {'cfg': cfg.describe(), 'input': l.decode('utf-8', 'replace')[:2000], 'first': io1[max(0, i - 120):i + 80].decode('utf-8', 'replace'),
                             'second': (io2[max(0, i - 120):i + 80].decode('utf-8', 'replace') if isinstance(io2, bytes) else io2)}, tags=['idem'])
         chk.streams.append({'stream': 'first pass fed back', 'cfg': cfg.describe(), 'cases': len(lines)})
+    # a line BELOW the reader's limit whose redacted form is ABOVE it (every one-letter string grows to the replacement text): the first pass emits it, and a second
+    # pass over that output meets a line longer than the reader accepts (known finding F34: the fixed point fails at the level of the stream, not of the line)
+    from vlib import streamlib
+    lim = streams.line_limit()
+    if lim is not None:
+        import json as _json
+        nvals = lim // 8 + 200
+        big = _json.dumps({'t': {'$date': '2020-01-01T00:00:00.000+00:00'}, 's': 'I', 'c': 'COMMAND', 'id': 1, 'ctx': 'c', 'msg': 'Slow query',
+                           'attr': {'ns': 'd.c', 'command': {'find': 'c', 'filter': {'f': {'$in': ['a'] * nvals}}, '$db': 'd'}}}, separators=(',', ':')).encode()
+        p1 = streamlib.impl_stream(Cfg(), [{'data': big + b'\n'}])[0]
+        m1 = streamlib.model_stream(Cfg(), [{'data': big + b'\n'}])[0]
+        chk.count(); chk.nontriv(('expansion', len(big)))
+        if (p1[0], p1[1]) != (m1[0], m1[1]): chk.disagree('first pass over a line that grows past the limit', {'input_bytes': len(big)}, (p1[0], len(p1[1])), (m1[0], len(m1[1])))
+        if p1[0] == 'ok' and p1[1]:
+            p2 = streamlib.impl_stream(Cfg(), [{'data': p1[1]}])[0]
+            m2 = streamlib.model_stream(Cfg(), [{'data': p1[1]}])[0]
+            chk.count()
+            if (p2[0], p2[1]) != (m2[0], m2[1]): chk.disagree('second pass over a first-pass output longer than the limit', {'output_bytes': len(p1[1])}, (p2[0], len(p2[1])), (m2[0], len(m2[1])))
+            if p2[0] != 'ok' or p2[1] != p1[1]:
+                grows = len(big) < lim <= len(p1[1]) - 1
+                chk.violate('second pass over the first-pass output does not reproduce it', {'input_bytes': len(big), 'first_pass_output_bytes': len(p1[1]), 'reader_limit': lim, 'second_pass_result': p2[0],
+                            'second_pass_output_bytes': len(p2[1]), 'input_head': big[:300].decode()}, tags=['idem', 'stream'] + ([('expands_past_limit' if lim >= 65536 else 'expands_past_a_limit_below_64KiB')] if grows and p2[0] == 'toolong' else []))      # F34 is about the pinned tree's limit; a LOWER limit is another matter
+        chk.streams.append({'stream': 'a line below the reader limit whose redaction is above it, fed back through the stream processor', 'values': nvals})
     # through the CLI, multi-line
     with tempfile.TemporaryDirectory() as d:
         cli_lines = lines[:200] + [l for (l, info) in cases if info['kind'] == 'anyjson'][:250]
